@@ -205,7 +205,7 @@ CLAIMED["C20"] = (
     "returned and mux placeholders are replaced in place; every collected mux is handed to search_mapping, which tries "
     "both positions of every mux and returns only complete mappings accepted by valid_mapping; the accelerator sizes its "
     "switch fields by the former and fills them by the latter. NOT decided: that the decoded switch values make the "
-    "merged PE compute the kernel, nor stability under merge histories (behavioural). Merging: a routing conflict at operand i gets its own new mux with a fresh switch (default on lhs), inserted before the consumer; new chooses get fresh switches; routing of existing chooses and of the terminator is uncollided. Round-3 clause: uncollide_inputs is called whenever the abstract counterpart exists (no further condition).",
+    "merged PE compute the kernel, nor stability under merge histories (behavioural). Merging: a routing conflict at operand i gets its own new mux with a fresh switch (default on lhs), inserted before the consumer; new chooses get fresh switches; routing of existing chooses and of the terminator is uncollided. Round-3 clause: uncollide_inputs is called whenever the abstract counterpart exists (no further condition). Operations placed into choose regions take the block arguments by position, never through a value mapper keyed by their own operand values (C20.region-operands, F-39 fixed).",
     WALKER_NOTE,
     "abstract path enumeration over a finite switch domain, sibling count agreement, dependency templates (static analysis)",
     "DESIGN.md section 5, C20",
@@ -240,7 +240,7 @@ CLAIMED["C04"] = (
     "block arguments of every block of every region; create_pairs fills a missing partner from infer_state_of(this op's "
     "in_state) under the same key and only if unset, defaults are materialised for a first setup, operand order is (rs1, rs2); "
     "memoised objects are never mutated. Does not decide run-time register contents (depends on C07) nor address conventions "
-    "of the hardware that the code does not state. Surviving results of DeleteAllStates are mapped front to back.",
+    "of the hardware that the code does not state. Surviving results of DeleteAllStates are mapped front to back. A factory registered with AccContext.register_accelerator inside a loop binds its accelerator when it is created (C04.registry-binding, F-38 fixed).",
     "Configuration symbols are non-negative integers; xDMA has two streamers (asserted in its __init__) hence at least four "
     "pointer fields; max_multicast_dest is the class constant; the two reserved registers behind the streamer launch CSR are a "
     "hardware constant frozen in the rule table with the code comment as its reason.",
